@@ -283,3 +283,58 @@ pub fn fnv(b: &[u8]) -> u64 {
 pub fn guarded<T, F: FnOnce() -> T>(f: F) -> Result<T, ()> {
     std::panic::catch_unwind(std::panic::AssertUnwindSafe(f)).map_err(|_| ())
 }
+
+impl Report {
+    pub fn merge(&mut self, r: Report) {
+        self.evaluations += r.evaluations;
+        self.nontrivial.extend(r.nontrivial);
+        for (k, v) in r.dist {
+            *self.dist.entry(k).or_insert(0) += v;
+        }
+        for s in r.samples {
+            if self.samples.len() < self.max_samples {
+                self.samples.push(s);
+            }
+        }
+        for j in r.judge_failures {
+            if self.judge_failures.len() < 20 {
+                self.judge_failures.push(j);
+            }
+        }
+        for j in r.disagreements {
+            if self.disagreements.len() < 20 {
+                self.disagreements.push(j);
+            }
+        }
+        self.known.extend(r.known);
+        self.notes.extend(r.notes);
+    }
+}
+
+/// run `f` on `threads` workers, each with its own model driver and PRNG stream; merge the reports
+pub fn parallel<F>(driver: &str, threads: usize, seed: u64, base: Report, f: F) -> Report
+where
+    F: Fn(usize, &mut Driver, &mut Rng, &mut Report) + Sync,
+{
+    let mut rep = base;
+    let results: Vec<Report> = std::thread::scope(|s| {
+        let hs: Vec<_> = (0..threads.max(1))
+            .map(|t| {
+                let f = &f;
+                let prop = rep.property.clone();
+                s.spawn(move || {
+                    let mut d = Driver::spawn(driver);
+                    let mut rng = Rng::new(seed.wrapping_mul(1000003).wrapping_add(t as u64));
+                    let mut r = Report::new(&prop, "");
+                    f(t, &mut d, &mut rng, &mut r);
+                    r
+                })
+            })
+            .collect();
+        hs.into_iter().map(|h| h.join().expect("worker thread failed")).collect()
+    });
+    for r in results {
+        rep.merge(r);
+    }
+    rep
+}
